@@ -35,7 +35,8 @@ CHECKS = {
     "C04": _e("Every Process verdict must equal Allowed(claimed frame) and every Build result BuildFrame (highest allowed, capped at "
               "+100) of the specification: wrong-frame clones, speculative builds with arbitrary parents, lazily chosen allowed "
               "frames, histories of up to 767 speculative builds in front of the build of a root, a validator sleeping > 100 frames; "
-              "bounded model with arbitrary allowed frames replayed exhaustively.", ref="C04"),
+              "bounded model with arbitrary allowed frames replayed exhaustively; a Reset to the same epoch number with other weights, after "
+              "which every Build frame and verdict is judged under the new weights.", ref="C04"),
     "C05": _e("Every answer of vecfc.Index.ForklessCause (random and all-pairs queries, warm and cold caches, after failing adds, three "
               "indexing orders, forkers also beyond one third) is recorded and compared by TLC with the graph definition evaluated "
               "on the specification's own ancestry sets. VecIndex.tla (the transcribed vector-clock algorithm) is model-checked against "
@@ -60,7 +61,8 @@ CHECKS = {
               technique=_T, ref="C09"),
     "C10": _e("The TLA+ specification is the independent naive reference (graph forkless cause, frame rule, weighted voting with ties = "
               "yes, Atropos by canonical order). Bounded model replayed exhaustively; random DAGs with equal-weight even validator "
-              "sets and lagging validators validated call by call; coverage counters for no-quorum decisions and non-first Atropos.",
+              "sets and lagging validators validated call by call (also 13-16 validators with many equal weights: the canonical order "
+              "decides the Atropos); coverage counters for no-quorum decisions and non-first Atropos.",
               ref="C10"),
 }
 
